@@ -1,4 +1,4 @@
-#!/usr/bin/env python3
+#!/usr/bin/env python3-vt
 # validate MANIFEST.json and every evidence file against the schemas
 import json, sys, glob, jsonschema
 ok = True
